@@ -96,6 +96,19 @@ pub fn apply_op<F: Flavour>(kind: OpKind, hu: &F::Node, hv: &F::Node, vkey: Key,
             F::isolate(hu);
             Ret::Unit
         }
+        OpKind::Lookup => {
+            // all key lookups must agree with each other; Ok = found, ErrNotFound = not found
+            let c = F::is_connected(hu, vkey);
+            let f = F::find_out(hu, vkey);
+            let _ = (F::find_in(hu, vkey), F::out_degree(hu), F::in_degree(hv));
+            if c != f.is_some() || f.map_or(false, |h| F::key(&h) != vkey) {
+                Ret::Panic("is_connected and find_* disagree".into())
+            } else if c {
+                Ret::Ok
+            } else {
+                Ret::ErrNotFound
+            }
+        }
     })) {
         Ok(r) => r,
         Err(e) => Ret::Panic(panic_msg(e)),
@@ -328,6 +341,8 @@ pub fn run_hist<F: Flavour>(case: &HistCase, which: Which, st: &mut Stats, count
                 (OpKind::TryConnect, _) => "step.try_connect-fail",
                 (OpKind::Connect, _) => "step.connect",
                 (OpKind::Isolate, _) => "step.isolate",
+                (OpKind::Lookup, Ret::Ok) => "step.lookup-hit",
+                (OpKind::Lookup, _) => "step.lookup-miss",
             });
             if op.u == op.v && op.kind != OpKind::Isolate {
                 st.class("step.self-loop-operands");
@@ -464,13 +479,16 @@ fn prov_strategy() -> impl Strategy<Value = Prov> {
 
 /// (n, p_self%, value range, ops)
 pub fn hist_strategy(max_len: usize, max_n: usize) -> impl Strategy<Value = HistCase> {
-    (2usize..=max_n, 0u8..40, 1u32..=3, prop_oneof![3 => 0usize..=12, 3 => 0usize..=60, 1 => 0usize..=max_len]).prop_flat_map(move |(n, pself, vals, len)| {
-        let op = (0u8..10, any::<u16>(), any::<u16>(), 0u8..100, 0u32..vals, prov_strategy(), prov_strategy(), 0u8..100, any::<u16>()).prop_map(move |(k, u, v, coin, e, pu, pv, gcoin, g)| {
+    // a fifth of the cases: 2-3 nodes and long histories (hidden state kept between calls needs many
+    // interactions on the same pair of nodes)
+    (prop_oneof![4 => (2usize..=max_n).boxed(), 1 => (2usize..=3usize.min(max_n)).boxed()], 0u8..40, 1u32..=3, prop_oneof![3 => 0usize..=12, 3 => 0usize..=60, 2 => 0usize..=max_len]).prop_flat_map(move |(n, pself, vals, len)| {
+        let op = (0u8..12, any::<u16>(), any::<u16>(), 0u8..100, 0u32..vals, prov_strategy(), prov_strategy(), 0u8..100, any::<u16>()).prop_map(move |(k, u, v, coin, e, pu, pv, gcoin, g)| {
             let kind = match k {
                 0..=3 => OpKind::Connect,
                 4..=5 => OpKind::TryConnect,
                 6..=8 => OpKind::Disconnect,
-                _ => OpKind::Isolate,
+                9 => OpKind::Isolate,
+                _ => OpKind::Lookup,
             };
             let ui = pt::idx(u, n);
             let vi = if coin < pself { ui } else { pt::idx(v, n) };
@@ -478,6 +496,7 @@ pub fn hist_strategy(max_len: usize, max_n: usize) -> impl Strategy<Value = Hist
                 OpKind::Disconnect => 60,
                 OpKind::TryConnect => 35,
                 OpKind::Connect => 15,
+                OpKind::Lookup => 50,
                 OpKind::Isolate => 0,
             };
             HOp { kind, u: ui, v: if kind == OpKind::Isolate { ui } else { vi }, e, pu, pv: if kind == OpKind::Isolate { Prov::Orig } else { pv }, guide: if gcoin < gp { Some(g) } else { None } }
@@ -491,11 +510,34 @@ pub fn hist_strategy(max_len: usize, max_n: usize) -> impl Strategy<Value = Hist
 /// state every operation with every operand choice is executed on nodes
 /// rebuilt from the state's witness history.
 pub fn enumerate<F: Flavour>(which: Which, n: usize, max_edges: usize, st: &mut Stats, wd: &Watchdog) {
-    let mut seen: HashSet<State> = HashSet::new();
-    let mut queue: VecDeque<(State, Vec<HOp>)> = VecDeque::new();
+    // A state is explored once per *history class* of the witness that reaches it
+    // (has an isolate happened / a successful disconnect / a failed lookup-like call, and the kind of the
+    // last call): state kept inside the implementation between calls (cached positions, memoised
+    // lookups) is invisible in the observed state, so different kinds of histories leading to the
+    // same observed state are all continued.
+    type Class = (bool, bool, bool, u8);
+    let class_of = |ops: &[HOp], last_ret_fail: bool, c: Class| -> Class {
+        let last = ops.last().map(|o| o.kind as u8).unwrap_or(255);
+        let (mut iso, mut disc, mut failed, _) = c;
+        if let Some(o) = ops.last() {
+            match o.kind {
+                OpKind::Isolate => iso = true,
+                OpKind::Disconnect if !last_ret_fail => disc = true,
+                _ => {}
+            }
+            if last_ret_fail {
+                failed = true;
+            }
+        }
+        (iso, disc, failed, last)
+    };
+    let mut seen: std::collections::HashMap<State, HashSet<Class>> = std::collections::HashMap::new();
+    let mut queue: VecDeque<(State, Vec<HOp>, Class)> = VecDeque::new();
     let s0 = State::empty(n);
-    seen.insert(s0.clone());
-    queue.push_back((s0, vec![]));
+    let c0: Class = (false, false, false, 255);
+    seen.entry(s0.clone()).or_default().insert(c0);
+    queue.push_back((s0, vec![], c0));
+    let max_witness = 14usize;
     let mut all_ops = vec![];
     for u in 0..n {
         for v in 0..n {
@@ -504,12 +546,13 @@ pub fn enumerate<F: Flavour>(which: Which, n: usize, max_edges: usize, st: &mut 
                 all_ops.push(HOp { kind: OpKind::TryConnect, u, v, e, pu: Prov::Orig, pv: Prov::Orig, guide: None });
             }
             all_ops.push(HOp { kind: OpKind::Disconnect, u, v, e: 0, pu: Prov::Orig, pv: Prov::Orig, guide: None });
+            all_ops.push(HOp { kind: OpKind::Lookup, u, v, e: 0, pu: Prov::Orig, pv: Prov::Orig, guide: None });
         }
         all_ops.push(HOp { kind: OpKind::Isolate, u, v: u, e: 0, pu: Prov::Orig, pv: Prov::Orig, guide: None });
     }
     let mut states = 0u64;
     let mut transitions = 0u64;
-    while let Some((s, witness)) = queue.pop_front() {
+    while let Some((s, witness, cls)) = queue.pop_front() {
         states += 1;
         wd.beat(|| format!("enumerate {} {} state #{}", which.id(), F::NAME, states));
         let edges = if F::DIRECTED { s.edge_count_directed() } else { s.edge_count_undirected() };
@@ -539,16 +582,19 @@ pub fn enumerate<F: Flavour>(which: Which, n: usize, max_edges: usize, st: &mut 
                         st.nontrivial(&(F::NAME, &s, op));
                     }
                     let te = if F::DIRECTED { t.edge_count_directed() } else { t.edge_count_undirected() };
-                    if te <= max_edges && seen.insert(t.clone()) {
+                    let failed_call = t == s && !matches!(op.kind, OpKind::Isolate | OpKind::Lookup);
+                    let c2 = class_of(&case.ops, failed_call, cls);
+                    if te <= max_edges && case.ops.len() <= max_witness && seen.entry(t.clone()).or_default().insert(c2) {
                         if case.ops.len() >= 3 {
                             st.sample_kind("enumerated", 1, || json!({"enumerated": {"flavour": F::NAME, "state": &t, "witness_history": &case.ops}}));
                         }
-                        queue.push_back((t, case.ops));
+                        queue.push_back((t, case.ops, c2));
                     }
                 }
             }
         }
     }
+    st.class_n(&format!("enumerated.distinct-states.{}.n{}e{}", F::NAME, n, max_edges), seen.len() as u64);
     st.class_n(&format!("enumerated.states.{}.n{}e{}", F::NAME, n, max_edges), states);
     st.class_n(&format!("enumerated.transitions.{}.n{}e{}", F::NAME, n, max_edges), transitions);
 }
@@ -644,7 +690,7 @@ pub fn run(which: Which, ctx: &mut Ctx) {
     // (b) random histories with shrinking
     let workers = tier.pick(4usize, 16usize);
     let cases_per_worker = tier.pick(5000u32, 40_000u32);
-    let max_len = tier.pick(120usize, 400usize);
+    let max_len = tier.pick(240usize, 600usize);
     let random = parallel(workers, |w| {
         let mut st = Stats::new();
         let cell = std::cell::RefCell::new(&mut st);
@@ -675,4 +721,46 @@ pub fn run(which: Which, ctx: &mut Ctx) {
         st
     });
     ctx.stats.merge(random);
+    // (c) long histories on 3 nodes: state kept inside the implementation between calls needs many
+    // interactions on the same few nodes (measured: a stale cached position that survives isolate()
+    // shows up in about 1 of 1000 such histories)
+    let long_cases = tier.pick(1200u32, 12_000u32);
+    let long = parallel(workers, |w| {
+        let mut st = Stats::new();
+        let cell = std::cell::RefCell::new(&mut st);
+        let strat = (3usize..=3, 0u8..25, 2u32..=3, 150usize..=320).prop_flat_map(|(n, pself, vals, len)| {
+            let op = (0u8..12, any::<u16>(), any::<u16>(), 0u8..100, 0u32..vals, 0u8..100, any::<u16>()).prop_map(move |(k, u, v, coin, e, gcoin, g)| {
+                let kind = match k {
+                    0..=4 => OpKind::Connect,
+                    5 => OpKind::TryConnect,
+                    6..=8 => OpKind::Disconnect,
+                    9 => OpKind::Isolate,
+                    _ => OpKind::Lookup,
+                };
+                let ui = pt::idx(u, n);
+                let vi = if coin < pself { ui } else { pt::idx(v, n) };
+                HOp { kind, u: ui, v: if kind == OpKind::Isolate { ui } else { vi }, e, pu: Prov::Orig, pv: Prov::Orig, guide: if gcoin < 40 && kind == OpKind::Disconnect { Some(g) } else { None } }
+            });
+            proptest::collection::vec(op, len..=len + 30).prop_map(move |ops| HistCase { n, ops })
+        });
+        let minimal = pt::run(seed, 50 + w as u64, long_cases, &strat, |case, counting| {
+            wd.tick();
+            if counting {
+                let mut st = cell.borrow_mut();
+                st.class("len.150+ on 3 nodes");
+                st.nontrivial(case);
+                run_all(case, which, &mut st, true, None)
+            } else {
+                let mut scratch = Stats::new();
+                run_all(case, which, &mut scratch, false, None)
+            }
+        });
+        drop(cell);
+        if let Some(m) = minimal {
+            st.findings.clear();
+            run_all(&m, which, &mut st, false, None);
+        }
+        st
+    });
+    ctx.stats.merge(long);
 }
